@@ -186,10 +186,10 @@ def run(tier):
     if not ok:
         broken.append({"kind": "futexdriver-build", "msg": out[-2000:], "decls": vlib.failed_decls(out)})
     quick = tier == "quick"
-    n_scen = 200 if quick else 900
-    n_seeds = 16 if quick else 30
-    n_dfs = 6 if quick else 30
-    dfs_runs = 300 if quick else 2500
+    n_scen = 300 if quick else 1500
+    n_seeds = 20 if quick else 30
+    n_dfs = 8 if quick else 40
+    dfs_runs = 300 if quick else 3000
     hist = {"verdict": {}, "ops": {}, "steps": {}, "spurious": 0, "timeouts": 0, "collide": 0, "threads": {}}
     with vlib.scratch("c17-") as d:
         repo = vlib.copy_repo(os.path.join(d, "repo"))
